@@ -130,10 +130,6 @@ def run(ctx):
         secs = R.randint(10 ** 9, 2 * 10 ** 9)
         inst = dt.datetime.fromtimestamp(secs, dt.timezone.utc)
         x = inst.astimezone(tz_of(A))
-        try:
-            x = localize(tz_of(A), x.replace(tzinfo=None))     # the library re-localises the wall clock (ambiguous hours are skipped)
-        except Exception:  # noqa
-            continue
         if B:
             x = x.astimezone(tz_of(B))
         offt = str(int(x.utcoffset().total_seconds())) if aware is True else "naive"
